@@ -437,8 +437,9 @@ class Ctx:
         }
         if self.notes:
             ev['coverage']['notes'] = self.notes
-        os.makedirs(os.path.join(VERIF, 'evidence'), exist_ok=True)
-        with open(os.path.join(VERIF, 'evidence', f'{self.prop}.json'), 'w') as fo:
+        evdir = os.environ.get('VERIF_EVIDENCE_DIR') or os.path.join(VERIF, 'evidence')
+        os.makedirs(evdir, exist_ok=True)
+        with open(os.path.join(evdir, f'{self.prop}.json'), 'w') as fo:
             json.dump(ev, fo, indent=1, default=str)
         for ln in lines:
             print(ln)
